@@ -285,13 +285,15 @@ def bloom_stream(ck, cases):
 def tok_stream(ck, bcases, splitbytes):
     """tokenizer tie: TokModel.tokens / TokModel.finder against the real SimpleTokenizer / SimpleTokenFinder on the strings
     of the bloom cases; the writer inserts the byte-level tokens (always for ASCII values)."""
-    vals, pairs = {}, {}
+    vals, pairs, fixed = {}, {}, []
     writer = {"ascii_bytewise": 0, "ascii_other": 0, "nonascii_bytewise": 0, "nonascii_other": 0}
     for t in bcases:
         tk = t.get("tok")
         if not tk:
             continue
         for v in tk["vals"]:
+            if v.get("skip"):
+                continue
             if not v["realok"]:
                 ck.broken.append("tokenizer tie: the real SimpleTokenizer does not yield the hashes of the maximal runs of non-split bytes "
                                  "(TokModel.tokens) for the value %s" % v["v"])
@@ -300,6 +302,8 @@ def tok_stream(ck, bcases, splitbytes):
             vals[json.dumps(v["v"])] = v["toks"]
         for q in tk["pairs"]:
             pairs[json.dumps([q["p"], q["v"]])] = q["m"]
+        if t.get("bid") == 0 and not t.get("corpus"):
+            fixed = [json.dumps([q["p"], q["v"]]) for q in tk["pairs"][-18:]]
     if writer["ascii_other"]:
         ck.broken.append("tokenizer tie: for an ASCII value the filter data of BloomFilterWriter.GenBloomFilterData differs from the data of "
                          "the byte-level tokens (TokModel.tokens): the premise-free theorem C20_bloom_skip_sound_ascii no longer describes the writer")
@@ -316,6 +320,8 @@ def tok_stream(ck, bcases, splitbytes):
     vl = mix(vals.items(), lambda kv: all(x < 128 for x in json.loads(kv[0])), capv)
     pl = mix([kv for kv in pairs.items() if kv[1]], lambda kv: all(x < 128 for x in json.loads(kv[0])[1]), capp * 2 // 3)
     pl += mix([kv for kv in pairs.items() if not kv[1]], lambda kv: all(x < 128 for x in json.loads(kv[0])[1]), capp - len(pl))
+    have = set(k for k, _ in pl)
+    pl += [(k, pairs[k]) for k in fixed if k not in have]
     txt = ("From Coq Require Import List Bool Arith NArith. From OG Require Import C20.Corr.\nImport ListNotations.\nOpen Scope N_scope.\n"
            "Definition R := Eval vm_compute in tok_results %s\n %s\n %s.\nPrint R.\n") % (
         nl(splitbytes),
@@ -326,9 +332,12 @@ def tok_stream(ck, bcases, splitbytes):
     if not m:
         ck.broken.append("tokenizer tie: model evaluation failed: %s" % o[-300:])
         return None
-    a, b = m.group(1).split("],")[0] + "]", m.group(1).split("],")[1]
-    bad_v = ast.literal_eval(a.strip().replace(";", ","))
-    bad_p = ast.literal_eval(b.strip().replace(";", ","))
+    lists = re.findall(r"\[([^\]]*)\]", m.group(1))
+    if len(lists) != 2:
+        ck.broken.append("tokenizer tie: unparsable model output: %s" % o[-300:])
+        return None
+    bad_v = [int(x) for x in re.findall(r"\d+", lists[0])]
+    bad_p = [int(x) for x in re.findall(r"\d+", lists[1])]
     if bad_v:
         ck.broken.append("correspondence C20 tokenizer: TokModel.tokens differs from the real SimpleTokenizer's tokens for the value bytes %s" % vl[bad_v[0]][0])
     if bad_p:
